@@ -3,6 +3,7 @@
    theorems about usage_ok programs hold for programs written against any mix of the public overloads. *)
 From Coq Require Import ZArith List Bool Lia.
 Require Import Verif.Base.Atomics Verif.Gen.Gen_bounded_queue Verif.Conc.Machine Verif.BQ.BQModel Verif.BQ.BQProofs.
+Require Import Verif.BQ.BQInvDefs Verif.BQ.BQInvStep Verif.BQ.BQInvMain Verif.BQ.BQInvThm Verif.BQ.BQWake Verif.BQ.BQTry Verif.BQ.BQDead.
 Import ListNotations.
 Local Open Scope Z_scope.
 
@@ -29,3 +30,35 @@ Proof. intros k cp s H R. rewrite bq_lower_progs in R; auto. Qed.
 
 Theorem bq_client_usage : forall k cp, calls_ok cp = true -> usage_ok k (declared cp) = true -> usage_ok k (lower_progs cp) = true.
 Proof. intros k cp H U. rewrite bq_lower_progs; auto. Qed.
+
+(* the schedule-quantified theorems for client programs written against the public overloads *)
+Theorem bq_client_no_lost_wakeup : forall k cp s, calls_ok cp = true -> usage_ok k (declared cp) = true ->
+  Reach k (lower_progs cp) s -> small s ->
+  forall t th sl x, nth_error (threads s) t = Some th -> parkedOn s th sl x -> ver (get_slot s sl) = x ->
+  waker_on_its_way s sl x.
+Proof. intros k cp s C U R. exact (bq_no_lost_wakeup k (declared cp) s U (bq_client_reach k cp s C R)). Qed.
+
+Theorem bq_client_no_deadlock : forall k cp s, calls_ok cp = true -> usage_ok k (declared cp) = true ->
+  balanced (declared cp) -> blocking_only (declared cp) -> one_sided_threads (declared cp) ->
+  Reach k (lower_progs cp) s -> small s -> all_done s = false -> exists t, (t < length (threads s))%nat /\ step s t <> None.
+Proof. intros k cp s C U B BO OS R. exact (bq_no_deadlock k (declared cp) s U B BO OS (bq_client_reach k cp s C R)). Qed.
+
+Theorem bq_client_exclusive : forall k cp s, calls_ok cp = true -> usage_ok k (declared cp) = true ->
+  Reach k (lower_progs cp) s -> err s = false.
+Proof. intros k cp s C U R. exact (bq_exclusive k (declared cp) s U (bq_client_reach k cp s C R)). Qed.
+
+Theorem bq_client_exactly_once : forall k cp s, calls_ok cp = true -> usage_ok k (declared cp) = true ->
+  Reach k (lower_progs cp) s ->
+  (forall i v, In (i, v) (delivered s) -> In (i, v) (pushed s)) /\ NoDup (map fst (delivered s)) /\ NoDup (map fst (pushed s)) /\
+  (all_done s = true -> forall i v, In (i, v) (pushed s) -> In (i, v) (delivered s) \/
+     pay (get_slot s (Z.to_nat (i mod 2 ^ Z.of_nat k))) = Some v).
+Proof. intros k cp s C U R. exact (bq_exactly_once_full k (declared cp) s U (bq_client_reach k cp s C R)). Qed.
+
+(* non-vacuity: the documented asymmetric pairing through the iterator / value overloads *)
+Example bq_client_example :
+  let spinwake := {| conc := true; fwait := false; fwake := true |} in
+  let sleeper := {| conc := true; fwait := true; fwake := false |} in
+  let cp := [[{| c_entry := EnIt; c_op := OPushN spinwake [1; 2] |}];
+             [{| c_entry := EnVal; c_op := OPop sleeper |}; {| c_entry := EnPtr; c_op := OPop sleeper |}]] in
+  calls_ok cp = true /\ usage_ok 1 (declared cp) = true /\ lower_progs cp = declared cp.
+Proof. cbv zeta. repeat split; reflexivity. Qed.
